@@ -183,6 +183,38 @@ def run(chk):
                                  {"plain": p.text, "rewritten": q.text, "level": level, "rule": rule, "initial": {"x": st["x"], "y": st["y"]},
                                   "plain_result": coexec.describe(lay[3], x), "rewritten_result": coexec.describe(lay[3], y)})
                         break
+    # ---- the deterministic idiom matrices rewritten by the rules (tools/matrix.py): every block sets its own
+    #      operands, the verdict cells r[] of the two spellings must be equal ----
+    import matrix
+    for p in matrix.all_programs(["update-then-test", "update-then-loop", "comparisons", "switch"]):
+        for rule in ('incr', 'opassign', 'cmpswap', 'ifswap', 'forwhile', 'switchif'):
+            q = rewrite(p, rule)
+            if q.text == p.text:
+                continue
+            for level in (0, 1):
+                a = h.compile(p.text, level)
+                b = h.compile(q.text, level)
+                chk.count("matrix_rule_" + rule)
+                if a["status"] != "ok" or b["status"] != "ok":
+                    chk.count("matrix_one_side_rejected" if a["status"] != b["status"] else "matrix_both_rejected")
+                    continue
+                chk.case(key=(q.text, level), nontrivial=True)
+                states, lay = coexec.init_states(a, 1, seed=1)
+                for st in states:
+                    st["x"] %= 4; st["y"] %= 4
+                oa, _ = coexec.run_all(m, "c15m", a, states, lay)
+                ob, _ = coexec.run_all(m, "c15m", b, states, lay)
+                if oa is None or ob is None:
+                    chk.count("unloadable"); continue
+                for st, x, y in zip(states, oa, ob):
+                    chk.count("matrix_runs")
+                    if x["stop"].startswith("fault") or y["stop"].startswith("fault"):
+                        continue
+                    if coexec.observable(x, lay[3]) != coexec.observable(y, lay[3]):
+                        chk.fail("rewrite-" + rule + "-matrix", "rule `%s` on the %s matrix: the two spellings end in different states at -O%d" % (rule, p.matrix, level),
+                                 {"plain": p.text, "rewritten": q.text, "level": level, "rule": rule,
+                                  "plain_result": coexec.describe(lay[3], x), "rewritten_result": coexec.describe(lay[3], y)})
+                        break
     # ---- idiom sweep: the assignment-form rules on every kind of assignable operand x operator x operand ----
     DECL = "unsigned char v0, v1; unsigned short s0, s1; unsigned char a0[4]; unsigned short w0[4];\n"
     LVS = [("v0", 8), ("s0", 16), ("a0[X]", 8), ("a0[Y]", 8), ("a0[2]", 8), ("w0[X]", 16), ("w0[Y]", 16), ("w0[1]", 16), ("X", 8), ("Y", 8)]
